@@ -27,6 +27,13 @@ static OUT: Mutex<Vec<u8>> = Mutex::new(Vec::new());
 /// millis since start at which the current command began; 0 = idle
 static CMD_STARTED: AtomicU64 = AtomicU64::new(0);
 static CMD_NAME: Mutex<String> = Mutex::new(String::new());
+/// where and why the last panic happened (set by the panic hook; printed as a `pan` line, a channel
+/// that is never diffed against the model: the oracles use it to tell known findings from new panics)
+static LAST_PANIC: Mutex<String> = Mutex::new(String::new());
+
+fn take_panic() -> String {
+    std::mem::take(&mut *LAST_PANIC.lock().unwrap_or_else(|e| e.into_inner()))
+}
 
 macro_rules! outln {
     ($($arg:tt)*) => {{
@@ -321,6 +328,7 @@ impl World {
         let res = catch_unwind(AssertUnwindSafe(|| self.print_state_inner()));
         if res.is_err() {
             outln!("acc err=Panic");
+            outln!("pan {}", take_panic());
             self.forget_log();
             self.print_ls();
         }
@@ -421,7 +429,10 @@ impl World {
             }
             Ok(Err(ReadRecordError::IoError(err))) => outln!("out open err={}", io_kind(&err)),
             Ok(Err(ReadRecordError::Corruption)) => outln!("out open err=Corruption"),
-            Err(_) => outln!("out open err=Panic"),
+            Err(_) => {
+                outln!("out open err=Panic");
+                outln!("pan {}", take_panic());
+            }
         }
         self.absorb_events();
         self.print_state();
@@ -451,6 +462,7 @@ impl World {
             }
             Err(_) => {
                 outln!("out {what} err=Panic");
+                outln!("pan {}", take_panic());
                 // the log is in an unknown state: forget it without flushing into the trace
                 self.log = Some(log);
                 self.forget_log();
@@ -859,9 +871,21 @@ fn main() {
         .ok()
         .and_then(|s| s.parse().ok())
         .unwrap_or(20_000);
-    if std::env::var("MRL_SHOW_PANIC").is_err() {
-        std::panic::set_hook(Box::new(|_| {}));
-    }
+    let show = std::env::var("MRL_SHOW_PANIC").is_ok();
+    std::panic::set_hook(Box::new(move |info| {
+        let loc = info.location().map(|l| format!("{}:{}", l.file(), l.line())).unwrap_or_default();
+        let msg = info
+            .payload()
+            .downcast_ref::<&str>()
+            .map(|s| s.to_string())
+            .or_else(|| info.payload().downcast_ref::<String>().cloned())
+            .unwrap_or_default();
+        let text = format!("{} {}", loc, msg.replace('\n', " "));
+        if show {
+            eprintln!("panic: {text}");
+        }
+        *LAST_PANIC.lock().unwrap_or_else(|e| e.into_inner()) = text;
+    }));
     let start = Instant::now();
     std::thread::spawn(move || watchdog(start, deadline_ms));
 
